@@ -140,10 +140,10 @@ theorem sim_handle {s : Srv} {a : Abs} (h0 : Inv s) (r0 : R s a) (ho : s.out = [
         | false => rfl
         | true => exact absurd (mi.mp hx) ht
       rw [handleRequest_notMine h0 hc ht] at hs
-      obtain ⟨s'', e2, p⟩ := handleDisconnect_post (h0.emit (.errorTo c 0)) (c := c) (ts := ts) hc
+      obtain ⟨s'', e2, p⟩ := handleDisconnect_post (h0.emit (.errorNow c 0)) (c := c) (ts := ts) hc
       rw [e2] at hs; cases hs
       simp only [absEv, spec_request_notOpen no]
-      have r1 : R (s.emit (.errorTo c 0)) a := r0.congr rfl rfl rfl
+      have r1 : R (s.emit (.errorNow c 0)) a := r0.congr rfl rfl rfl
       refine ⟨r1.disc (h0.emit _) p, ?_⟩
       rw [p.replies]; replies
   | disconnect c =>
